@@ -13,7 +13,7 @@ import (
 	"verif/harness/internal/prog"
 )
 
-var reRepoFrame = regexp.MustCompile(`(/repo/[^\s:]+\.go):(\d+)`)
+var reRepoFrame = regexp.MustCompile("(" + regexp.QuoteMeta(RepoRoot()) + `/[^\s:]+\.go):(\d+)`)
 
 // raceReports parses the race detector logs: one entry per report, keyed by
 // the pair of innermost non-test repository frames of the two accesses.
@@ -36,7 +36,7 @@ func raceReports(dir string) map[string]string {
 				site := ""
 				for _, x := range m {
 					if !strings.HasSuffix(x[1], "_test.go") {
-						site = strings.TrimPrefix(x[1], "/repo/") + ":" + x[2]
+						site = strings.TrimPrefix(x[1], RepoRoot()+"/") + ":" + x[2]
 						break
 					}
 				}
@@ -46,7 +46,7 @@ func raceReports(dir string) map[string]string {
 					site = ""
 					for _, x := range m2 {
 						if !strings.HasSuffix(x[1], "_test.go") {
-							site = strings.TrimPrefix(x[1], "/repo/") + ":" + x[2]
+							site = strings.TrimPrefix(x[1], RepoRoot()+"/") + ":" + x[2]
 							break
 						}
 					}
